@@ -11,7 +11,7 @@
    their anchored target; recursion is on fuel and every statement is about
    runs that did not run out of it. *)
 From Coq Require Import List NArith Bool String.
-From YQ Require Import Base.Str Spec.YamlMergeSpec Model.Alias Proofs.AliasProofs.
+From YQ Require Import Base.Str Spec.YamlMergeSpec Model.Alias Proofs.AliasProofs Proofs.AliasNested.
 Import ListNotations.
 
 (* ---------------- explode(.) : every document, every fuel ---------------- *)
@@ -54,6 +54,50 @@ Theorem C13_three_routes_agree_on_partial :
   /\ (forall vs, resolve fuel (Mp a es) = Some (VM vs) -> vlookup k vs = option_map value_of want).
 Proof. exact three_routes_flat. Qed.
 Print Assumptions C13_three_routes_agree_on_partial.
+
+(* ---------------- explode is idempotent ---------------- *)
+Theorem C13_explode_idempotent : forall (f1 f2 : nat) (d d' d'' : node),
+  explode f1 d = ROk d' -> explode f2 d' = ROk d'' -> d'' = d'.
+Proof. exact explode_idempotent. Qed.
+Print Assumptions C13_explode_idempotent.
+
+(* ---------------- the whole domain: any position of <<, merge lists of any length, nested merges ---------------- *)
+(* [merge_simple_doc fuel d] (Model/Alias.v, a boolean) holds when, in every map
+   of d and of every alias target, hereditarily: no key is written twice (so
+   at most one <<); a merge value is `*t` or `[*t1, ..., *tn]` with anchored
+   MAPS as targets; no key is provided by two maps of one merge list (keys as
+   the spec resolves the targets, so nested merges count); and no explicit key
+   written BEFORE the merge key is provided by a merged map - the one clause
+   that is a known finding (C13_explicit_before_merge_refuted), the other
+   being overlapping merge lists (C13_mergelist_overlap_refuted).
+
+   JSON conversion = spec: the exploded document has the same value as the
+   spec resolution ([veq]: sequences element-wise, maps key by key). *)
+Theorem C13_json_is_resolution_on : forall (fe fs : nat) (d d' : node) (v : value),
+  merge_simple_doc fs d = true -> explode fe d = ROk d' -> resolve fs d = Some v -> veq (value_of d') v.
+Proof. exact explode_is_resolve. Qed.
+Print Assumptions C13_json_is_resolution_on.
+
+(* the routes, for every document of the domain and every path the spec can read:
+   route 1 - traversal of the un-exploded document reaches a node whose printed
+   (exploded) value is the spec's value at that path; routes 2 / 3 - the exploded
+   document holds an equal value at that path.  (What is not proved: that the
+   model's [traverse] on the exploded tree reads what [vget] reads in its value;
+   that step is covered by the correspondence run.) *)
+Theorem C13_routes_agree_on : forall (fs : nat) (d : node) (v : value) (p : list step) (x : value),
+  merge_simple_doc fs d = true -> resolve fs d = Some v -> vget p v = Some x ->
+  (forall F r, traverse F d p = ROk r ->
+     exists n, r = TNode n /\ forall fe n', explode fe n = ROk n' -> veq (value_of n') x)
+  /\ (forall fe d', explode fe d = ROk d' -> exists x1, vget p (value_of d') = Some x1 /\ veq x1 x).
+Proof. exact routes_agree_on_domain. Qed.
+Print Assumptions C13_routes_agree_on.
+
+(* the node-level statement behind route 1 *)
+Theorem C13_traversal_finds_spec_node : forall (p : list step) (d : node) (f : nat) (v : value) (F : nat) (r : tres) (x : value),
+  merge_simple_doc f d = true -> resolve f d = Some v -> traverse F d p = ROk r -> vget p v = Some x ->
+  exists n g, r = TNode n /\ merge_simple_doc g n = true /\ resolve g n = Some x.
+Proof. exact traverse_domain. Qed.
+Print Assumptions C13_traversal_finds_spec_node.
 
 (* ================================================================== *)
 (* refutations (each reproduced on the real binary, KNOWN_FINDINGS.txt) *)
@@ -122,3 +166,19 @@ Proof.
   - intros s [<-|[<-|[]]]; reflexivity.
   - repeat constructor; cbn; intuition discriminate.
 Qed.
+
+(* realistic documents are in the domain: merge key in the middle, a merge list,
+   a merged map that itself merges, aliases in value position and in sequences;
+   the two known findings are outside *)
+Example C13_domain_example :
+  let base := Mp true [(W "z", Sv "9"); (W "u", Sq false [Sv "1"; Sv "2"])] in
+  let mid := Mp true [(W "q", Sv "0"); (merge_key, Al base); (W "x", Sc true (W "5"))] in
+  let other := Mp true [(W "w", Sv "3")] in
+  let d := Mp false [(W "base", base); (W "mid", mid); (W "other", other);
+                     (W "top", Mp false [(W "a", Sv "1"); (merge_key, Sq false [Al mid; Al other]); (W "x", Sv "7"); (W "s", Sq true [Al base; Al mid])])] in
+  merge_simple_doc 12 d = true
+  /\ route3 20 d = ROk (W "{""base"":{""z"":9,""u"":[1,2]},""mid"":{""q"":0,""z"":9,""u"":[1,2],""x"":5},""other"":{""w"":3},""top"":{""a"":1,""w"":3,""q"":0,""z"":9,""u"":[1,2],""x"":7,""s"":[{""z"":9,""u"":[1,2]},{""q"":0,""z"":9,""u"":[1,2],""x"":5}]}}")
+  /\ route1 20 d [PKey (W "top"); PKey (W "u"); PIdx 1] = ROk (W "2")
+  /\ merge_simple_doc 12 (Mp false [(W "a", map_a); (W "n", Mp false [(W "x", Sv "5"); (merge_key, Al map_a)])]) = false
+  /\ merge_simple_doc 12 (Mp false [(W "a", map_a); (W "b", map_b); (W "m", Mp false [(merge_key, Sq false [Al map_a; Al map_b])])]) = false.
+Proof. cbv zeta. repeat split; vm_compute; reflexivity. Qed.
